@@ -79,7 +79,7 @@ def price_path(rng, T, kind="walk"):
     return out
 
 
-GEN_KEYS = ("nops", "capital", "p_defer", "p_redundant", "allow_illformed", "fund_subs", "p_unsettled", "p_flow", "p_custom", "same_sec", "leverage", "daytrade", "zero_outlay", "reopen")
+GEN_KEYS = ("nops", "capital", "p_defer", "p_redundant", "allow_illformed", "fund_subs", "p_unsettled", "p_flow", "p_custom", "same_sec", "leverage", "daytrade", "zero_outlay", "reopen", "giveaway")
 
 
 def make_C(rng, tree=None, T=4, comm=None, spread=None, integer=True, mults=(1, 1, 1, 2, 5), late=False, D=50000, crash=False, bidoffer=None, delist=False, zerodip=False, penny=False):
@@ -193,8 +193,9 @@ WEIGHTS = [Fraction(0), Fraction(1, 4), Fraction(1, 2), Fraction(1), Fraction(-1
 class HistoryGen:
     """Online generator of operation histories for one configuration."""
 
-    def __init__(self, rng, C, nops=10, capital=None, p_defer=0.15, p_redundant=0.15, allow_illformed=False, fund_subs=True, p_unsettled=0.0, p_flow=0.23, p_custom=0.0, same_sec=False, leverage=False, daytrade=0.0, zero_outlay=0.0, reopen=0.0):
+    def __init__(self, rng, C, nops=10, capital=None, p_defer=0.15, p_redundant=0.15, allow_illformed=False, fund_subs=True, p_unsettled=0.0, p_flow=0.23, p_custom=0.0, same_sec=False, leverage=False, daytrade=0.0, zero_outlay=0.0, reopen=0.0, giveaway=0.0):
         self.rng = rng
+        self.giveaway = giveaway
         self.reopen = reopen
         self.daytrade = daytrade
         self.zero_outlay = zero_outlay
@@ -348,6 +349,14 @@ class HistoryGen:
             if not self.subtree_usable(s_):
                 return None
             return {"op": "transact", "node": s_, "a": [rng.choice([10, 50, -20, 100]), 1], "b": NAN, "upd": upd}
+        if upd and self.giveaway and rng.random() < self.giveaway:
+            # a trade that moves no cash at all: a bespoke price of exactly zero (needs bid/offer
+            # accounting), or a security quoted at zero
+            xs = [x for x in self.secs if (self.usable(x) and C["bidoffer"]) or C["px"][x - 1][self.t - 1] == [0, 1]]
+            if xs:
+                x = rng.choice(xs)
+                cp = [0, 1] if (self.usable(x) and C["bidoffer"]) else NAN
+                return {"op": "transact", "node": x, "a": [rng.choice([1, 2, 5, -1, -2]), 1], "b": cp, "upd": True}
         if upd and self.reopen and rng.random() < self.reopen:
             # close a holding, let the tree be refreshed more than once, trade it again
             held = [x for x in self.secs if self.usable(x) and last and last["pos"][x - 1] != 0]
@@ -370,7 +379,7 @@ class HistoryGen:
                 cp = NAN
                 if rng.random() < self.p_custom:
                     p = C["px"][x - 1][self.t - 1]
-                    cp = [p[0] * 4 + rng.choice([-3, -1, 1, 2, 5]), 4]
+                    cp = [p[0] * 4 + rng.choice([-3, -1, 1, 2, 5]), 4] if rng.random() < 0.8 else [0, 1]  # (also: given away at zero)
                 self.queue.insert(0, {"op": "transact", "node": x, "a": [-q, 1], "b": NAN, "upd": True})
                 return {"op": "transact", "node": x, "a": [q, 1], "b": cp, "upd": True}
         if upd and self.zero_outlay and rng.random() < self.zero_outlay:
@@ -402,7 +411,7 @@ class HistoryGen:
             cp = NAN
             if rng.random() < self.p_custom:
                 p = C["px"][x - 1][self.t - 1]
-                cp = [p[0] * 4 + rng.choice([-3, -1, 1, 2, 5]), 4]
+                cp = [p[0] * 4 + rng.choice([-3, -1, 1, 2, 5]), 4] if rng.random() < 0.8 else [0, 1]  # (also: given away at zero)
             return {"op": "transact", "node": x, "a": [q, 1], "b": cp, "upd": upd}
         if kind == "allocate":
             x = rng.choice(self.secs)
@@ -433,13 +442,14 @@ class HistoryGen:
             return {"op": "close", "node": C["par"][c - 1], "child": c, "upd": upd}
         if kind == "transact":
             x = rng.choice(self.secs)
-            if not self.usable(x):
+            quoted0 = C["px"][x - 1][self.t - 1] == [0, 1]
+            if not self.usable(x) and not quoted0:
                 return None
             q = rng.choice([1, 2, 5, 10, -1, -3, -10, 25])
             cp = NAN
             if rng.random() < self.p_custom:
                 p = C["px"][x - 1][self.t - 1]
-                cp = [p[0] * 4 + rng.choice([-3, -1, 1, 2, 5]), 4]
+                cp = [p[0] * 4 + rng.choice([-3, -1, 1, 2, 5]), 4] if rng.random() < 0.8 else [0, 1]  # (also: given away at zero)
             self.fav = x
             return {"op": "transact", "node": x, "a": [q, 1], "b": cp, "upd": upd}
         if kind == "flatten":
